@@ -26,18 +26,19 @@ Proof.
   apply Z.eqb_eq in H. subst. reflexivity.
 Qed.
 
-Lemma netmask_shiftl j : 0 <= j <= 32 -> 2 ^ 32 - 2 ^ j = Z.shiftl (Z.ones (32 - j)) j.
+Lemma netmask_shiftl w j : 0 <= j <= w -> 2 ^ w - 2 ^ j = Z.shiftl (Z.ones (w - j)) j.
 Proof.
   intro Hj. rewrite Z.shiftl_mul_pow2 by lia. rewrite Z.ones_equiv.
-  replace (Z.pred (2 ^ (32 - j)) * 2 ^ j) with (2 ^ (32 - j) * 2 ^ j - 2 ^ j) by lia.
-  rewrite <- Z.pow_add_r by lia. replace (32 - j + j) with 32 by lia. reflexivity.
+  replace (Z.pred (2 ^ (w - j)) * 2 ^ j) with (2 ^ (w - j) * 2 ^ j - 2 ^ j) by lia.
+  rewrite <- Z.pow_add_r by lia. replace (w - j + j) with w by lia. reflexivity.
 Qed.
 
-Lemma bcast_bits a j : 0 <= a < 2 ^ 32 -> 0 <= j <= 32 ->
-  Z.lor (Z.land a (2 ^ 32 - 2 ^ j)) (2 ^ 32 - 1 - (2 ^ 32 - 2 ^ j)) = Z.lor a (2 ^ j - 1).
+(* (a & netmask) | hostmask = a | hostbits, for every width, address and host-part length *)
+Lemma bcast_bits w a j : 0 <= a < 2 ^ w -> 0 <= j <= w ->
+  Z.lor (Z.land a (2 ^ w - 2 ^ j)) (2 ^ w - 1 - (2 ^ w - 2 ^ j)) = Z.lor a (2 ^ j - 1).
 Proof.
   intros Ha Hj.
-  replace (2 ^ 32 - 1 - (2 ^ 32 - 2 ^ j)) with (2 ^ j - 1) by lia.
+  replace (2 ^ w - 1 - (2 ^ w - 2 ^ j)) with (2 ^ j - 1) by lia.
   replace (2 ^ j - 1) with (Z.ones j) by (rewrite Z.ones_equiv; lia).
   rewrite netmask_shiftl by lia.
   apply Z.bits_inj'. intros n Hn.
@@ -45,24 +46,49 @@ Proof.
   destruct (Z.ltb_spec n j) as [Hlt|Hge].
   - rewrite (Z.ones_spec_low j n) by lia. rewrite !orb_true_r. reflexivity.
   - rewrite (Z.ones_spec_high j n) by lia. rewrite !orb_false_r.
-    destruct (Z.ltb_spec n 32) as [Hlt32|Hge32].
-    + rewrite (Z.ones_spec_low (32 - j) (n - j)) by lia. apply andb_true_r.
+    destruct (Z.ltb_spec n w) as [Hltw|Hgew].
+    + rewrite (Z.ones_spec_low (w - j) (n - j)) by lia. apply andb_true_r.
     + assert (Z.testbit a n = false) as ->.
       { destruct (Z.eq_dec a 0) as [->|Hnz]; [apply Z.bits_0|].
         apply Z.bits_above_log2; [lia|].
-        assert (Z.log2 a < 32) by (apply Z.log2_lt_pow2; lia). lia. }
+        assert (Z.log2 a < w) by (apply Z.log2_lt_pow2; lia). lia. }
       reflexivity.
 Qed.
 
+Lemma bcast_prefix_spec w a k : 0 <= a < 2 ^ w -> 0 <= k <= w -> bcast_prefix w a k = spec_bcast w a k.
+Proof. intros Ha Hk. unfold bcast_prefix, spec_bcast, netmask_of. apply bcast_bits; lia. Qed.
+
+(* IPv4, netmask in address form (what the Windows native layer hands over) *)
 Theorem frontend_broadcast : forall a k, 0 <= a < 2 ^ 32 -> 0 <= k <= 32 ->
-  post_bcast Windows {| n_fam := 0; n_addr := []; n_addrz := a; n_maskz := Some (netmask_of 32 k); n_bcast := None |}
+  post_bcast Windows {| n_fam := 0; n_addr := []; n_addrz := a; n_mask := MAddr (netmask_of 32 k); n_bcast := None |}
   = Some (spec_bcast 32 a k).
 Proof.
-  intros a k Ha Hk. unfold post_bcast. cbn [n_fam n_maskz n_addrz n_bcast].
+  intros a k Ha Hk. unfold post_bcast. cbn [n_fam n_mask n_addrz n_bcast].
   change (0 =? 0) with true. cbv iota.
   unfold broadcast. rewrite prefix_roundtrip by assumption.
-  unfold spec_bcast, netmask_of. rewrite bcast_bits by lia. reflexivity.
+  rewrite bcast_prefix_spec by assumption. reflexivity.
 Qed.
+
+(* IPv4 and IPv6, netmask given as a prefix length *)
+Theorem frontend_broadcast_prefix : forall fam w a k, (fam = 0 /\ w = 32) \/ (fam = 1 /\ w = 128) ->
+  0 <= a < 2 ^ w -> 0 <= k <= w ->
+  post_bcast Windows {| n_fam := fam; n_addr := []; n_addrz := a; n_mask := MPrefix k; n_bcast := None |}
+  = Some (spec_bcast w a k).
+Proof.
+  intros fam w a k [[-> ->]|[-> ->]] Ha Hk; unfold post_bcast; cbn [n_fam n_mask n_addrz n_bcast].
+  - change (0 =? 0) with true. cbv iota.
+    replace ((0 <=? k) && (k <=? 32)) with true by (symmetry; apply andb_true_iff; split; apply Z.leb_le; lia).
+    rewrite bcast_prefix_spec by assumption. reflexivity.
+  - change (1 =? 0) with false. change (1 =? 1) with true. cbv iota.
+    replace ((0 <=? k) && (k <=? 128)) with true by (symmetry; apply andb_true_iff; split; apply Z.leb_le; lia).
+    rewrite bcast_prefix_spec by assumption. reflexivity.
+Qed.
+
+(* finding: an IPv6 netmask in address form -- the form psutil reports IPv6 netmasks in -- is never turned
+   into a broadcast address (ipaddress.IPv6Network raises, net_if_addrs() swallows it) *)
+Theorem ipv6_addrform_refuted : forall a k b,
+  post_bcast Windows {| n_fam := 1; n_addr := []; n_addrz := a; n_mask := MAddr (netmask_of 128 k); n_bcast := b |} = b.
+Proof. intros. reflexivity. Qed.
 
 (* broadcast is None-preserving for a mask that is neither a netmask nor a host mask (ipaddress raises) *)
 Example broadcast_noncontiguous : broadcast 32 3232235783 4278255360 = None.
@@ -115,7 +141,7 @@ Qed.
 
 Theorem frontend_mac : forall p os, let sep := match p with Windows => 45 | _ => 58 end in
   (1 <= List.length os <= 6)%nat -> Forall (fun o => count_byte sep o = 0%nat) os ->
-  post_addr p {| n_fam := 2; n_addr := join_octets sep os; n_addrz := 0; n_maskz := None; n_bcast := None |}
+  post_addr p {| n_fam := 2; n_addr := join_octets sep os; n_addrz := 0; n_mask := MNone; n_bcast := None |}
   = spec_mac sep os.
 Proof.
   intros p os sep Hlen Hf. unfold post_addr. cbn [n_fam n_addr]. change (2 =? 2) with true. cbv iota.
